@@ -10,6 +10,17 @@ BASE = ("cd /repo && env -u TRACKLIB_VERIF_TRACE /venv/bin/python -m pytest -ra 
 
 # pid -> (module(s), technique, level text, level note, design ref)
 CHECKS = {
+    "C10": ("MapMatch", "TLA+ composition MapMatch.tla (Projection + curvilinear abscissa on integer-leg geometries + radius filter): "
+            "TLC checks that every candidate state of the transcribed construction is accepted; one record per real "
+            "mapOnNetwork call (states held by hmm_inference, observations before/after) is judged by MapMatchTrace.tla "
+            "(code->spec trace validation)",
+            "all edge subsets of the 2x2 / 2x3 lattice grids and random connected networks of 1-6 multi-vertex edges "
+            "(horizontal, vertical, 3-4-5 oblique legs) x index resolutions x margins x radii 0.5-20 x noise x tracks on / near "
+            "/ far / outside: every assigned state must name an existing edge, lie on its geometry within the radius, with end "
+            "distances adding up to the edge length and the source distance equal to the abscissa; the track's observations "
+            "(identity, order, position, timestamp) must be unchanged.",
+            "TLC 1.8; integer-leg geometries so that abscissas are rational; ZeroDivisionError inherited from the vertical "
+            "projection branch is a recorded known finding", "5/C10"),
     "C09": ("Viterbi", "TLA+ model of HMM decoding: brute-force optimum over the product of candidate lists (definition), Bellman "
             "recursion and a transcription of the TAB_VAL/TAB_MRK forward-backward algorithm, checked by TLC on every small "
             "model; decodings recorded from HMM.estimate (likelihood and log mode) are judged by ViterbiTrace.tla (code->spec)",
